@@ -76,7 +76,13 @@ def l5(ctx: Ctx):
         line=get.lineno,
     )
     ok3 = any(isinstance(c, ast.Compare) and len(c.ops) == 1 and isinstance(c.ops[0], (ast.In, ast.NotIn)) and unparse(c.comparators[0]) == "self._name_to_procedure" for c in walk_scope)
-    ctx.ob("result:present-only", ok3, "" if ok3 else "names without a stored procedure (system modules) are no longer filtered out", file=PROCBANK_REL, line=get.lineno)
+    # the same filter written with `.get` (no default: a defaultdict's factory is not called) and a test for None
+    gets_ = [c for c in walk_scope if isinstance(c, ast.Attribute) and c.attr == "get" and unparse(c.value) == "self._name_to_procedure"]
+    none_test = any(isinstance(c, ast.Compare) and len(c.ops) == 1 and isinstance(c.ops[0], (ast.IsNot, ast.NotEq)) and isinstance(c.comparators[0], ast.Constant) and c.comparators[0].value is None for c in walk_scope) or any(isinstance(c, ast.Call) and call_name(c) == "filter" and c.args and isinstance(c.args[0], ast.Constant) and c.args[0].value is None for c in walk_scope)
+    subscripted = any(isinstance(c, ast.Subscript) and unparse(c.value) == "self._name_to_procedure" for c in walk_scope)
+    if gets_ and none_test and not subscripted:
+        ok3 = True
+    ctx.idiom("result:present-only", ok3 or subscripted, ok3, "" if ok3 else "names without a stored procedure (system modules) are no longer filtered out", file=PROCBANK_REL, line=get.lineno)
     subs = [c for c in walk_scope if isinstance(c, ast.Call) and isinstance(c.func, ast.Attribute) and c.func.attr == "sub"]
     tagged = [c for c in subs if (unparse(c.func.value) == "re" and c.args and unparse(c.args[0]) == "STR_STORAGE_TAG") or unparse(c.func.value) == "STR_STORAGE_TAG"]
     oks = len(subs) == 1 and len(tagged) == 1
@@ -115,7 +121,23 @@ def l5(ctx: Ctx):
             lv = lp.target.id
             if ast_contains(lp, f"PROCEDURE_START_PREFIX.match({lv})") and ast_contains(lp, f"INVOKED_PROCEDURE_NAMES.findall({lv})"):
                 ok4 = True
-    ctx.ob("load:patterns", ok4, "" if ok4 else "add_from_str no longer uses the header / RUN patterns line by line", file=PROCBANK_REL, line=add.lineno)
+    # each procedure text is stored by plain assignment: a name that is loaded twice (the program called like a library
+    # procedure) is replaced, not glued onto the first text
+    stores_ = [n for n in ast.walk(add) if isinstance(n, (ast.Assign, ast.AugAssign)) and any(isinstance(t_, ast.Subscript) and unparse(t_.value) == "self._name_to_procedure" for t_ in (n.targets if isinstance(n, ast.Assign) else [n.target]))]
+    upd_ = [c for c in ast.walk(add) if isinstance(c, ast.Call) and isinstance(c.func, ast.Attribute) and c.func.attr == "update" and unparse(c.func.value) == "self._name_to_procedure"]
+    oks_ = all(isinstance(n, ast.Assign) for n in stores_)
+    ctx.idiom(
+        "load:stores-replace",
+        bool(stores_ or upd_),
+        oks_,
+        "" if oks_ else f"add_from_str stores a procedure with `{unparse(next(n for n in stores_ if not isinstance(n, ast.Assign)))[:70]}`: a program named like a library procedure (ecb_cls.bas) is appended to the library text of that name - the bundle's last procedure is two procedures glued together, and with / without dependencies the program text differs",
+        file=PROCBANK_REL,
+        line=(next((n for n in stores_ if not isinstance(n, ast.Assign)), add)).lineno,
+        witness="" if oks_ else "ecb_cls.bas containing 10 CLS",
+        props=["C13", "C11"],
+    )
+    both_here = ast_contains(add, "PROCEDURE_START_PREFIX.match($x)") and ast_contains(add, "INVOKED_PROCEDURE_NAMES.findall($y)")
+    ctx.idiom("load:patterns", both_here, ok4, "" if ok4 else "add_from_str no longer uses the header / RUN patterns line by line", file=PROCBANK_REL, line=add.lineno)
     # the text is cut into lines at line terminators only: any other character may occur inside a string literal.
     # Decided on the *language* of whatever pattern does the cutting (inline or a module-level compiled constant).
     from .peg import fold_module
@@ -158,7 +180,8 @@ def l5(ctx: Ctx):
         from_run_pattern = isinstance(arg, ast.Call) and isinstance(arg.func, ast.Attribute) and arg.func.attr == "findall" and unparse(arg.func.value) == "INVOKED_PROCEDURE_NAMES"
         from_header = (isinstance(key, ast.Subscript) and isinstance(key.slice, ast.Constant) and key.slice.value == 1) or (isinstance(key, ast.Call) and isinstance(key.func, ast.Attribute) and key.func.attr == "group" and key.args and isinstance(key.args[0], ast.Constant) and key.args[0].value == 1)
         ok5 = from_run_pattern and from_header
-    ctx.idiom("load:records-callees", bool(upd), ok5, "" if ok5 else "callees are not recorded under the procedure being read", file=PROCBANK_REL, line=add.lineno)
+    key_known = bool(upd) and not (isinstance(resolve_alias(add, upd[0].func.value.slice), ast.Name) and any(isinstance(f_, ast.For) and any(isinstance(t_, ast.Name) and t_.id == resolve_alias(add, upd[0].func.value.slice).id for t_ in ast.walk(f_.target)) for f_ in ast.walk(add)))
+    ctx.idiom("load:records-callees", bool(upd) and key_known, ok5, "" if ok5 else "callees are not recorded under the procedure being read", file=PROCBANK_REL, line=add.lineno)
     # convert(): library first, then the program, then the closure of the program's own name
     P = pipeline(ctx)
     # slots in execution (depth-first) order: the library resource, the text the program emitted, the closure of the procedure name
@@ -232,18 +255,61 @@ def _cuts_lines(it: ast.AST, env) -> bool:
     return False
 
 
-def _line_valued(fn_: ast.AST, subj: ast.AST, env) -> bool:
+def _line_valued(fn_: ast.AST, subj: ast.AST, env, module: Optional[ast.Module] = None) -> Optional[bool]:
+    """True: the subject is one line of a newline split; False: it is a whole text (a parameter, a join, a read);
+    None: where it comes from is not understood (no verdict)."""
     if not isinstance(subj, ast.Name):
-        return False
+        return False if isinstance(subj, ast.Call) and isinstance(subj.func, ast.Attribute) and subj.func.attr in ("join", "read") else None
+    params = {a.arg for a in getattr(fn_, "args", ast.arguments(posonlyargs=[], args=[], kwonlyargs=[], kw_defaults=[], defaults=[])).args}
+
+    def position(target: ast.AST) -> Optional[Tuple[int, ...]]:
+        if isinstance(target, ast.Name):
+            return () if target.id == subj.id else None
+        if isinstance(target, (ast.Tuple, ast.List)):
+            for i, t in enumerate(target.elts):
+                p_ = position(t)
+                if p_ is not None:
+                    return (i,) + p_
+        return None
+
+    def from_iter(it: ast.AST, pos: Tuple[int, ...]) -> Optional[bool]:
+        if isinstance(it, ast.Call) and isinstance(it.func, ast.Name) and it.func.id == "enumerate" and it.args and pos[:1] == (1,):
+            return from_iter(it.args[0], pos[1:])
+        if pos == ():
+            if _cuts_lines(it, env):
+                return True
+            if isinstance(it, ast.Call) and isinstance(it.func, ast.Attribute) and it.func.attr in ("split", "splitlines"):
+                return False  # a split, but not at line ends
+        # a module-level generator function: what it yields at that position
+        if module is not None and isinstance(it, ast.Call) and isinstance(it.func, ast.Name) and len(pos) <= 1:
+            gen = next((f for f in module.body if isinstance(f, ast.FunctionDef) and f.name == it.func.id), None)
+            if gen is not None:
+                ys = [y.value for y in ast.walk(gen) if isinstance(y, ast.Yield) and y.value is not None]
+                verdicts = []
+                for y in ys:
+                    e = y
+                    if pos:
+                        if not (isinstance(y, ast.Tuple) and pos[0] < len(y.elts)):
+                            return None
+                        e = y.elts[pos[0]]
+                    verdicts.append(_line_valued(gen, e, env, None))
+                if verdicts and all(v is True for v in verdicts):
+                    return True
+                if any(v is False for v in verdicts):
+                    return False
+        return None
+
     for n in ast.walk(fn_):
-        if isinstance(n, ast.For) and any(isinstance(t, ast.Name) and t.id == subj.id for t in ast.walk(n.target)):
-            if not _cuts_lines(n.iter, env):
-                return False
-            # enumerate(lines): the line is the second target
-            return True
-        if isinstance(n, ast.comprehension) and any(isinstance(t, ast.Name) and t.id == subj.id for t in ast.walk(n.target)):
-            return _cuts_lines(n.iter, env)
-    return False
+        if isinstance(n, (ast.For, ast.comprehension)):
+            pos = position(n.target)
+            if pos is not None:
+                return from_iter(n.iter, pos)
+    if subj.id in params:
+        return False
+    binds = [a.value for a in ast.walk(fn_) if isinstance(a, (ast.Assign, ast.AnnAssign)) and a.value is not None and any(isinstance(t, ast.Name) and t.id == subj.id for t in (a.targets if isinstance(a, ast.Assign) else [a.target]))]
+    if len(binds) == 1:
+        return _line_valued(fn_, binds[0], env, module) if isinstance(binds[0], ast.Name) else (False if isinstance(binds[0], ast.Call) and isinstance(binds[0].func, ast.Attribute) and binds[0].func.attr in ("join", "read") else None)
+    return None
 
 
 def _lookahead_tail(pattern: str, flags: int) -> Optional[str]:
@@ -273,6 +339,7 @@ def l6(ctx: Ctx):
     L = b09lib(ctx)
     ref = Lang.from_regex(EVEN_QUOTES)
     ref_nl = Lang.from_regex(EVEN_QUOTES_LINE)
+    ref_nl2 = Lang.from_regex(EVEN_QUOTES_LINE.replace("\\r", ""))
     env_pb0 = fold_module(ctx, PROCBANK_REL)
     for nm in ("INVOKED_PROCEDURE_NAMES", "STR_STORAGE_TAG"):
         rc = pats[nm]
@@ -286,17 +353,25 @@ def l6(ctx: Ctx):
             raise AnalysisError("L6", nm, f"cannot build the look-ahead language: {e}")
         ok, w = got.equals(ref)
         # a guard written for one line at a time: same language without line terminators
-        ok_nl = got.equals(ref_nl)[0]
-        bounded = ok_nl and bool(rc.flags & re.MULTILINE)
+        ok_nl = got.equals(ref_nl)[0] or got.equals(ref_nl2)[0]
+        try:
+            eff_flags = re.compile(rc.pattern, rc.flags).flags  # inline (?m) counts
+        except re.error:
+            eff_flags = rc.flags
+        bounded = ok_nl and bool(eff_flags & re.MULTILINE)
         ctx.ob(f"{nm}:quote-guard", ok or ok_nl, "" if ok or ok_nl else f"the trailing look-ahead of `{nm}` is not the even-quote guard (differs on {w!r})", file=PROCBANK_REL, line=1, props=["C13", "C11", "C10"] if nm == "STR_STORAGE_TAG" else ["C13"])
         # ... and the quotes it counts are those of ONE line: a quote opened on a line is closed on that line (or never),
         # so counting to the end of a multi-line text lets an unbalanced quote of a later line (REM SAY "HI) switch the guard
         # off for everything before it
         uses = _pattern_uses(ctx, nm)
         ctx.need(uses, f"{nm}:uses", f"no application of `{nm}` found in procbank.py")
+        mod_tree = pyfacts(ctx).mod(PROCBANK_REL).tree
         for fn_, call_, subj in uses:
-            per_line = _line_valued(fn_, subj, env_pb0)
-            oku = bounded or (per_line and (ok or ok_nl))
+            per_line = _line_valued(fn_, subj, env_pb0, mod_tree)
+            if per_line is None and not bounded:
+                ctx.undecided(f"{nm}:guard-scope:{fn_.name}", f"where `{unparse(subj)}` comes from is not understood (neither a line of a newline split nor a whole text)", file=PROCBANK_REL, line=call_.lineno, props=["C13"])
+                continue
+            oku = bounded or (bool(per_line) and (ok or ok_nl))
             ctx.ob(
                 f"{nm}:guard-scope:{fn_.name}",
                 oku,
